@@ -150,8 +150,14 @@ vbi_event_enable(vbi_decoder *vbi, int mask)
 		vbi_teletext_channel_switched(vbi);
 	if (activate & VBI_EVENT_CAPTION)
 		vbi_caption_channel_switched(vbi);
-	if (activate & (VBI_EVENT_NETWORK | VBI_EVENT_NETWORK_ID))
-		memset(&vbi->network, 0, sizeof(vbi->network));
+	if (activate & (VBI_EVENT_NETWORK | VBI_EVENT_NETWORK_ID)) {
+		/* Both events share vbi->network, the memory of what has
+		   been announced. While one of them is enabled the station
+		   is being tracked, keep it. */
+		if (!(vbi->event_mask & (VBI_EVENT_NETWORK |
+					 VBI_EVENT_NETWORK_ID)))
+			memset(&vbi->network, 0, sizeof(vbi->network));
+	}
 	if (activate & VBI_EVENT_TRIGGER)
 		vbi_trigger_flush(vbi);
 	if (activate & (VBI_EVENT_ASPECT | VBI_EVENT_PROG_INFO)) {
